@@ -528,3 +528,24 @@ def forwarding_rule(chk: Check, rule: str, prefixes: tuple[str, ...], what: str,
             chk.violation(rule, fn, f"parameter `{p_}` is passed on", f"`{p_}` is accepted by `{fn.name}` but never read: it is no longer passed on to {tgt}, so the option / value is silently ignored", fn.loc())
         if not bad:
             chk.ok(rule, fn, "all parameters are used, none crossed", f"{sum(len(i) for _c, i, _x in fwd_calls)} identity-forwarded keyword(s)", fn.loc())
+
+
+# ------------------------------------------------------------------------------------------------- failure counter sites
+def count_failure_sites_rule(chk: Check, rule: str, why_other: str, why_missing: str) -> list[tuple[FuncInfo, ast.Call]]:
+    """WHO-MAY-CALL(count_failure): only the unit consumer loop (after a scenario was closed) and the stateful
+    on_failure closure (which is followed by `raise FailureGroup`) may count a failure."""
+    UNIT = "engine/phases/unit/__init__.py"
+    ST_EX = "engine/phases/stateful/_executor.py"
+    P = chk.project
+    sites = [(fn, c) for fn in P.all_functions() for c in body_calls(fn) if last_attr(c) == "count_failure"]
+    allowed = {f"{UNIT}:execute", f"{ST_EX}:validate_response.on_failure"}
+    seen = set()
+    for fn, c in sites:
+        seen.add(fn.qualname)
+        if fn.qualname in allowed:
+            chk.ok(rule, fn, "count_failure call site", "", fn.loc(c))
+        else:
+            chk.violation(rule, fn, "count_failure call site", why_other, fn.loc(c))
+    for q in sorted(allowed - seen):
+        chk.violation(rule, q, "count_failure call site", why_missing, q.split(":")[0])
+    return sites
